@@ -186,6 +186,10 @@ func ensurePropFile(path string, lines []string) {
 	if len(lines) == 0 {
 		content = ""
 	}
+	if strings.HasSuffix(path, ".nonl.properties") {
+		// round 6: a file whose last line has no line terminator (an editor that does not add one, `printf k=v > file`)
+		content = strings.TrimSuffix(content, "\n")
+	}
 	if _, ok := propFilesDone.Load(path + "\x00" + content); ok {
 		return
 	}
